@@ -1,6 +1,6 @@
-(* C11/Proofs3.v -- the token-aware generator under a fixed oracle: each of its three loops against the
-   list it walks, and the closed form of the whole sequence (faithful to the code, including the
-   early exit of the second loop on an empty tier). *)
+(* C11/Proofs3.v -- the token-aware generator under a fixed oracle: each of its three loops is a scan, for
+   the first host that is up and not yet offered, of a list it walks; the closed form of the whole
+   sequence follows. *)
 From Coq Require Import Permutation.
 From GocqlV Require Import Lib.Base C11.Model C11.Spec C11.Proofs1 C11.Proofs2.
 
@@ -18,10 +18,56 @@ Proof.
   - eapply yields_cons; [|exact H3]. congruence.
 Qed.
 
+(* ---- hosts minus those already offered (the `used` map also absorbs repetitions) -------------------- *)
+Fixpoint dedup_seq (used : list Z) (l : list host) : list host :=
+  match l with
+  | [] => []
+  | h :: t => if zmem (hid h) used then dedup_seq used t else h :: dedup_seq (hid h :: used) t
+  end.
+
+(* the `used` set after the hosts of [l] have been walked *)
+Definition used_after (used : list Z) (l : list host) : list Z := rev (map hid (dedup_seq used l)) ++ used.
+
+Lemma rev_ids_cons (h : host) (l : list host) (used : list Z) :
+  rev (map hid (h :: l)) ++ used = rev (map hid l) ++ hid h :: used.
+Proof. simpl. rewrite <- app_assoc. reflexivity. Qed.
+
+Lemma dedup_seq_app a : forall used b,
+  dedup_seq used (a ++ b) = dedup_seq used a ++ dedup_seq (used_after used a) b.
+Proof.
+  unfold used_after. induction a as [|h a IH]; intros used b; [reflexivity|]. simpl.
+  destruct (zmem (hid h) used); [apply IH|]. rewrite rev_ids_cons. simpl. f_equal. apply IH.
+Qed.
+
+Lemma used_after_app a used b : used_after used (a ++ b) = used_after (used_after used a) b.
+Proof.
+  unfold used_after. rewrite dedup_seq_app. unfold used_after. rewrite map_app, rev_app_distr, app_assoc. reflexivity.
+Qed.
+
+Definition skipped (up : Z -> bool) (used : list Z) (l : list host) : Prop :=
+  Forall (fun h => up (hid h) = false \/ zmem (hid h) used = true) l.
+
+Lemma dedup_seq_skipped up used pre l : skipped up used pre -> dedup_seq used (ups up (pre ++ l)) = dedup_seq used (ups up l).
+Proof.
+  induction 1 as [|h pre Hh _ IH]; [reflexivity|]. simpl. unfold ups in *. simpl.
+  destruct (up (hid h)) eqn:Eu; [|assumption]. destruct Hh as [Hh|Hh]; [congruence|].
+  simpl. rewrite Hh. assumption.
+Qed.
+
+Lemma dedup_seq_split up used pre h post :
+  skipped up used pre -> up (hid h) = true -> zmem (hid h) used = false ->
+  dedup_seq used (ups up (pre ++ h :: post)) = h :: dedup_seq (hid h :: used) (ups up post).
+Proof.
+  intros Hp Hu Hm. rewrite (dedup_seq_skipped up used pre _ Hp). unfold ups. simpl. rewrite Hu. simpl. rewrite Hm. reflexivity.
+Qed.
+
+Lemma dedup_seq_all_skipped up used l : skipped up used l -> dedup_seq used (ups up l) = [].
+Proof. intros H. rewrite <- (app_nil_r l). rewrite (dedup_seq_skipped up used l [] H). reflexivity. Qed.
+
 (* ---- first loop ------------------------------------------------------------------------------------ *)
 Definition tier0 (k : pkind) (h : host) : bool := (host_tier k h =? 0)%nat.
 
-(* what walking over a replica that is not offered does to `remote` *)
+(* what walking over a replica does to `remote` *)
 Definition add_remote (k : pkind) (nlrf : bool) (remote : list (list host)) (h : host) : list (list host) :=
   match host_tier k h with
   | O => remote
@@ -33,120 +79,93 @@ Definition add_remotes (k : pkind) (nlrf : bool) (remote : list (list host)) (rs
 
 Definition near (k : pkind) (up : Z -> bool) (rs : list host) : list host := ups up (filter (tier0 k) rs).
 
-Lemma p1_hit k nlrf up h reps remote : host_tier k h = 0%nat -> up (hid h) = true ->
-  ta_phase1 k nlrf up (Some h :: reps) remote = P1Found h reps remote.
-Proof. intros Ht Hu. cbn [ta_phase1 ta_tier]. rewrite Ht, Hu. reflexivity. Qed.
+Lemma p1_hit k nlrf up used h reps remote :
+  host_tier k h = 0%nat -> up (hid h) = true -> zmem (hid h) used = false ->
+  ta_phase1 k nlrf up used (h :: reps) remote = P1Found h reps remote.
+Proof. intros Ht Hu Hm. cbn [ta_phase1]. rewrite Ht, Hu, Hm. reflexivity. Qed.
 
-Lemma p1_skip k nlrf up h reps remote : tier0 k h && up (hid h) = false ->
-  ta_phase1 k nlrf up (Some h :: reps) remote = ta_phase1 k nlrf up reps (add_remote k nlrf remote h).
+Lemma p1_skip k nlrf up used h reps remote : tier0 k h && (up (hid h) && negb (zmem (hid h) used)) = false ->
+  ta_phase1 k nlrf up used (h :: reps) remote = ta_phase1 k nlrf up used reps (add_remote k nlrf remote h).
 Proof.
-  intros H. cbn [ta_phase1 ta_tier]. unfold add_remote, tier0 in *.
-  destruct (host_tier k h) as [|t]; [|reflexivity].
-  simpl in H. rewrite H. reflexivity.
+  intros H. cbn [ta_phase1]. unfold add_remote, tier0 in *.
+  destruct (host_tier k h) as [|t]; [|reflexivity]. simpl in H. rewrite H. reflexivity.
 Qed.
 
 Lemma ta_next_phase1_ext nlrf up p reps1 rem1 reps2 rem2 used fb :
-  ta_phase1 (pk p) nlrf up reps1 rem1 = ta_phase1 (pk p) nlrf up reps2 rem2 ->
+  ta_phase1 (pk p) nlrf up used reps1 rem1 = ta_phase1 (pk p) nlrf up used reps2 rem2 ->
   ta_next nlrf up p (mkTA reps1 rem1 used fb) = ta_next nlrf up p (mkTA reps2 rem2 used fb).
 Proof. intros E. unfold ta_next. cbn [ti_reps ti_remote ti_used ti_fb]. rewrite E. reflexivity. Qed.
 
-Lemma rev_ids_cons (h : host) (l : list host) (used : list Z) :
-  rev (map hid (h :: l)) ++ used = rev (map hid l) ++ hid h :: used.
-Proof. simpl. rewrite <- app_assoc. reflexivity. Qed.
-
 Lemma stage1 nlrf up p fb : forall rs remote used HS st',
   yields (ta_step nlrf up)
-         (mkTA [] (add_remotes (pk p) nlrf remote rs) (rev (map hid (near (pk p) up rs)) ++ used) fb, p) HS st' ->
-  yields (ta_step nlrf up) (mkTA (map Some rs) remote used fb, p) (near (pk p) up rs ++ HS) st'.
+         (mkTA [] (add_remotes (pk p) nlrf remote rs) (used_after used (near (pk p) up rs)) fb, p) HS st' ->
+  yields (ta_step nlrf up) (mkTA rs remote used fb, p) (dedup_seq used (near (pk p) up rs) ++ HS) st'.
 Proof.
   induction rs as [|h rs IH]; intros remote used HS st' H; [exact H|].
   destruct (tier0 (pk p) h && up (hid h)) eqn:E.
-  - apply andb_true_iff in E. destruct E as [Et Eu]. unfold tier0 in Et. apply Nat.eqb_eq in Et.
+  - apply andb_true_iff in E. destruct E as [Et Eu]. pose proof Et as Et'. unfold tier0 in Et'. apply Nat.eqb_eq in Et'.
     assert (En : near (pk p) up (h :: rs) = h :: near (pk p) up rs).
-    { unfold near, ups. simpl. unfold tier0 at 1. rewrite Et. simpl. rewrite Eu. reflexivity. }
-    rewrite En in *. simpl. eapply yields_cons.
-    + unfold ta_step, ta_next. cbn [fst snd ti_reps ti_remote ti_used ti_fb map].
-      rewrite (p1_hit _ _ _ _ _ _ Et Eu). reflexivity.
-    + apply IH. rewrite rev_ids_cons in H.
-      unfold add_remotes in *. simpl in H. unfold add_remote at 2 in H. rewrite Et in H. exact H.
+    { unfold near, ups. simpl. rewrite Et. simpl. rewrite Eu. reflexivity. }
+    assert (Ea : add_remotes (pk p) nlrf remote (h :: rs) = add_remotes (pk p) nlrf remote rs).
+    { unfold add_remotes. simpl. unfold add_remote at 2. rewrite Et'. reflexivity. }
+    rewrite En, Ea in *. destruct (zmem (hid h) used) eqn:Em.
+    + (* already offered: skipped *)
+      unfold used_after in H. simpl in H. rewrite Em in H. simpl. rewrite Em.
+      eapply yields_head; [|apply (IH remote used HS st' H)].
+      unfold ta_step. cbn [fst snd]. erewrite ta_next_phase1_ext; [reflexivity|].
+      rewrite p1_skip; [unfold add_remote; rewrite Et'; reflexivity|]. rewrite Et, Eu, Em. reflexivity.
+    + unfold used_after in H. simpl in H. rewrite Em in H. rewrite rev_ids_cons in H. simpl. rewrite Em. simpl.
+      eapply yields_cons.
+      * unfold ta_step, ta_next. cbn [fst snd ti_reps ti_remote ti_used ti_fb].
+        rewrite (p1_hit _ _ _ _ _ _ _ Et' Eu Em). reflexivity.
+      * apply IH. exact H.
   - assert (En : near (pk p) up (h :: rs) = near (pk p) up rs).
     { unfold near, ups. simpl. destruct (tier0 (pk p) h) eqn:Et; [|reflexivity]. simpl in *. rewrite E. reflexivity. }
     rewrite En in *. eapply yields_head; [|apply (IH (add_remote (pk p) nlrf remote h) used HS st' H)].
-    unfold ta_step. cbn [fst snd map]. erewrite ta_next_phase1_ext; [reflexivity|].
-    apply p1_skip. assumption.
+    unfold ta_step. cbn [fst snd]. erewrite ta_next_phase1_ext; [reflexivity|].
+    apply p1_skip. rewrite andb_assoc, E. reflexivity.
 Qed.
 
 (* ---- second loop ----------------------------------------------------------------------------------- *)
-(* the hosts the second loop can reach: whole tiers up to the first empty one *)
-Fixpoint p2_seq (rem : list (list host)) : list host :=
-  match rem with
-  | [] => []
-  | [] :: _ => []
-  | l :: rest => l ++ p2_seq rest
-  end.
+Lemma not_ok_skipped up used h : up (hid h) && negb (zmem (hid h) used) = false ->
+  up (hid h) = false \/ zmem (hid h) used = true.
+Proof. destruct (up (hid h)), (zmem (hid h) used); simpl; auto. Qed.
 
-Definition p2_stuck (rem : list (list host)) : Prop := forall up, ta_phase2 up rem = P2Done rem.
-
-Lemma p2_stuck_nil : p2_stuck [].
-Proof. intros up. reflexivity. Qed.
-
-Lemma p2_stuck_empty rest : p2_stuck ([] :: rest).
-Proof. intros up. reflexivity. Qed.
-
-Lemma p2_inner_spec up rest nt cur : cur <> [] ->
+Lemma p2_inner_spec up used rest nt cur :
   (match nt with
-   | P2Found h rem' => exists pre post, p2_seq rest = pre ++ h :: post /\ downs up pre /\ up (hid h) = true /\ p2_seq rem' = post
-   | P2Done rem' => downs up (p2_seq rest) /\ p2_seq rem' = [] /\ p2_stuck rem'
+   | P2Found h rem' => exists pre post, concat rest = pre ++ h :: post /\ skipped up used pre /\ up (hid h) = true
+                                         /\ zmem (hid h) used = false /\ concat rem' = post
+   | P2Done rem' => skipped up used (concat rest) /\ rem' = []
    end) ->
-  match p2_inner up rest nt cur with
-  | P2Found h rem' => exists pre post, cur ++ p2_seq rest = pre ++ h :: post /\ downs up pre /\ up (hid h) = true /\ p2_seq rem' = post
-  | P2Done rem' => downs up (cur ++ p2_seq rest) /\ p2_seq rem' = [] /\ p2_stuck rem'
+  match p2_inner up used rest nt cur with
+  | P2Found h rem' => exists pre post, cur ++ concat rest = pre ++ h :: post /\ skipped up used pre /\ up (hid h) = true
+                                        /\ zmem (hid h) used = false /\ concat rem' = post
+  | P2Done rem' => skipped up used (cur ++ concat rest) /\ rem' = []
   end.
 Proof.
-  intros Hne Hnt. induction cur as [|h cur IH]; [congruence|]. cbn [p2_inner].
-  destruct cur as [|h2 cur].
-  - destruct (up (hid h)) eqn:Eu.
-    + exists [], (p2_seq rest). splits; try assumption; constructor.
-    + destruct nt as [h' rem'|rem'].
-      * destruct Hnt as [pre [post [E1 [E2 [E3 E4]]]]]. exists (h :: pre), post. simpl. rewrite E1.
-        splits; try assumption. constructor; assumption.
-      * destruct Hnt as [E1 [E2 E3]]. splits; try assumption. simpl. constructor; assumption.
-  - destruct (up (hid h)) eqn:Eu.
-    + exists [], ((h2 :: cur) ++ p2_seq rest). splits; try assumption; constructor.
-    + assert (Hne' : h2 :: cur <> []) by discriminate. specialize (IH Hne').
-      destruct (p2_inner up rest nt (h2 :: cur)) as [h' rem'|rem'].
-      * destruct IH as [pre [post [E1 [E2 [E3 E4]]]]]. exists (h :: pre), post.
-        change ((h :: h2 :: cur) ++ p2_seq rest) with (h :: ((h2 :: cur) ++ p2_seq rest)). rewrite E1.
-        splits; try assumption. constructor; assumption.
-      * destruct IH as [E1 [E2 E3]]. splits; try assumption.
-        change ((h :: h2 :: cur) ++ p2_seq rest) with (h :: ((h2 :: cur) ++ p2_seq rest)). constructor; assumption.
+  intros Hnt. induction cur as [|h cur IH]; [exact Hnt|]. cbn [p2_inner].
+  destruct (up (hid h) && negb (zmem (hid h) used)) eqn:E.
+  - apply andb_true_iff in E. destruct E as [Eu Em]. apply negb_true_iff in Em.
+    exists [], (cur ++ concat rest). splits. constructor.
+  - apply not_ok_skipped in E. destruct (p2_inner up used rest nt cur) as [h' rem'|rem'].
+    + destruct IH as [pre [post [E1 [E2 [E3 [E4 E5]]]]]]. exists (h :: pre), post. simpl. rewrite E1. splits.
+      constructor; assumption.
+    + destruct IH as [E1 E2]. splits. simpl. constructor; assumption.
 Qed.
 
-Lemma phase2_spec up rem :
-  match ta_phase2 up rem with
-  | P2Found h rem' => exists pre post, p2_seq rem = pre ++ h :: post /\ downs up pre /\ up (hid h) = true /\ p2_seq rem' = post
-  | P2Done rem' => downs up (p2_seq rem) /\ p2_seq rem' = [] /\ p2_stuck rem'
+Lemma phase2_spec up used rem :
+  match ta_phase2 up used rem with
+  | P2Found h rem' => exists pre post, concat rem = pre ++ h :: post /\ skipped up used pre /\ up (hid h) = true
+                                        /\ zmem (hid h) used = false /\ concat rem' = post
+  | P2Done rem' => skipped up used (concat rem) /\ rem' = []
   end.
 Proof.
   induction rem as [|cur rest IH]; cbn [ta_phase2].
-  - splits; try apply p2_stuck_nil; constructor.
-  - destruct cur as [|h cur].
-    + cbn [p2_inner p2_seq]. splits; try apply p2_stuck_empty; constructor.
-    + change (p2_seq ((h :: cur) :: rest)) with ((h :: cur) ++ p2_seq rest).
-      apply p2_inner_spec; [discriminate | exact IH].
+  - splits. constructor.
+  - simpl concat. apply p2_inner_spec. exact IH.
 Qed.
 
 (* ---- third loop ------------------------------------------------------------------------------------ *)
-Definition skipped (up : Z -> bool) (used : list Z) (l : list host) : Prop :=
-  Forall (fun h => up (hid h) = false \/ zmem (hid h) used = true) l.
-
-(* the fallback's hosts minus those already offered (the `used` map also absorbs repetitions) *)
-Fixpoint dedup_seq (used : list Z) (l : list host) : list host :=
-  match l with
-  | [] => []
-  | h :: t => if zmem (hid h) used then dedup_seq used t else h :: dedup_seq (hid h :: used) t
-  end.
-
 Lemma fut_length_le shift layers co : (length (fut shift layers co) <= length (concat layers))%nat.
 Proof.
   destruct layers as [|l rest]; simpl; [lia|]. rewrite !app_length, skipn_length, rr_rot_length.
@@ -176,53 +195,38 @@ Proof.
       destruct (ta_phase3 up used fb1 fuel) as [[[h'| | |] fb'] used']; try tauto.
       * destruct IH as [pre' [post' [F1 [F2 [F3 [F4 [F5 [F6 [F7 F8]]]]]]]]].
         exists (pre ++ h :: pre'), post'. rewrite E1, <- E4, F1, <- app_assoc. simpl.
-        splits; try assumption; try congruence.
+        splits; try congruence.
         apply Forall_app. split; [assumption|]. constructor; [right; assumption | assumption].
-      * destruct IH as [F1 [F2 F3]]. splits; try assumption; try congruence.
+      * destruct IH as [F1 [F2 F3]]. splits; try congruence.
         rewrite E1. apply Forall_app. split; [assumption|]. constructor; [right; assumption|]. rewrite <- E4. assumption.
-    + exists pre, post. splits; assumption.
-  - destruct Hs as [E1 E2]. splits; try assumption.
+    + exists pre, post. splits.
+  - destruct Hs as [E1 E2]. splits.
     unfold skipped, downs in *. eapply Forall_impl; [|exact E1]. simpl. tauto.
 Qed.
 
-Lemma dedup_seq_skipped up used pre l : skipped up used pre -> dedup_seq used (ups up (pre ++ l)) = dedup_seq used (ups up l).
-Proof.
-  induction 1 as [|h pre Hh _ IH]; [reflexivity|]. simpl. unfold ups in *. simpl.
-  destruct (up (hid h)) eqn:Eu; [|assumption]. destruct Hh as [Hh|Hh]; [congruence|].
-  simpl. rewrite Hh. assumption.
-Qed.
-
-Lemma dedup_seq_split up used pre h post :
-  skipped up used pre -> up (hid h) = true -> zmem (hid h) used = false ->
-  dedup_seq used (ups up (pre ++ h :: post)) = h :: dedup_seq (hid h :: used) (ups up post).
-Proof.
-  intros Hp Hu Hm. rewrite (dedup_seq_skipped up used pre _ Hp). unfold ups. simpl. rewrite Hu. simpl. rewrite Hm. reflexivity.
-Qed.
-
 (* the state in which the generator stays exhausted *)
-Definition ta_done (rem : list (list host)) (used : list Z) (shift : Z) : ta_iter :=
-  mkTA [] rem used (Some (mkRR shift [] 0)).
+Definition ta_done (used : list Z) (shift : Z) : ta_iter := mkTA [] [] used (Some (mkRR shift [] 0)).
 
-Lemma ta_done_stays nlrf rem used shift p : p2_stuck rem ->
-  forall up, ta_step nlrf up (ta_done rem used shift, p) = (Nil, (ta_done rem used shift, p)).
+Lemma ta_done_stays nlrf used shift p :
+  forall up, ta_step nlrf up (ta_done used shift, p) = (Nil, (ta_done used shift, p)).
 Proof.
-  intros Hst up. unfold ta_step, ta_next, ta_done. cbn [fst snd ti_reps ti_remote ti_used ti_fb ta_phase1].
-  destruct nlrf; [rewrite (Hst up)|]; reflexivity.
+  intros up. unfold ta_step, ta_next, ta_done. cbn [fst snd ti_reps ti_remote ti_used ti_fb ta_phase1].
+  destruct nlrf; reflexivity.
 Qed.
 
-Lemma stage3 nlrf up p rem : (nlrf = true -> p2_stuck rem) ->
+Lemma stage3 nlrf up p :
   forall n fb, length (rr_future fb) = n -> rr_inv fb -> forall used,
-  exists used', yields (ta_step nlrf up) (mkTA [] rem used (Some fb), p)
-                       (dedup_seq used (ups up (rr_future fb))) (ta_done rem used' (ri_shift fb), p).
+  exists used', yields (ta_step nlrf up) (mkTA [] [] used (Some fb), p)
+                       (dedup_seq used (ups up (rr_future fb))) (ta_done used' (ri_shift fb), p).
 Proof.
-  intros Hst. induction n as [n IH] using lt_wf_ind. intros fb Hn Hinv used.
+  induction n as [n IH] using lt_wf_ind. intros fb Hn Hinv used.
   assert (Hfuel : (length (rr_future fb) < S (rr_size fb))%nat).
   { unfold rr_future, rr_size. pose proof (fut_length_le (ri_shift fb) (ri_layers fb) (ri_co fb)). lia. }
   pose proof (phase3_spec up used _ fb Hinv Hfuel) as Hs.
-  assert (Estep : ta_step nlrf up (mkTA [] rem used (Some fb), p) =
-                  (let '(o, fb', used') := ta_phase3 up used fb (S (rr_size fb)) in (o, (mkTA [] rem used' (Some fb'), p)))).
+  assert (Estep : ta_step nlrf up (mkTA [] [] used (Some fb), p) =
+                  (let '(o, fb', used') := ta_phase3 up used fb (S (rr_size fb)) in (o, (mkTA [] [] used' (Some fb'), p)))).
   { unfold ta_step, ta_next. cbn [fst snd ti_reps ti_remote ti_used ti_fb ta_phase1].
-    destruct nlrf; [rewrite (Hst eq_refl up)|]; destruct (ta_phase3 up used fb (S (rr_size fb))) as [[o fb'] used']; reflexivity. }
+    destruct nlrf; cbn [ta_phase2]; destruct (ta_phase3 up used fb (S (rr_size fb))) as [[o fb'] used']; reflexivity. }
   destruct (ta_phase3 up used fb (S (rr_size fb))) as [[[h| | |] fb'] used']; try tauto.
   - destruct Hs as [pre [post [E1 [E2 [E3 [E4 [E5 [E6 [E7 E8]]]]]]]]].
     destruct (IH (length (rr_future fb'))) with (fb := fb') (used := used') as [u' Hy]; auto.
@@ -230,29 +234,25 @@ Proof.
     exists u'. rewrite E1, (dedup_seq_split up used pre h post E2 E3 E4), <- E5, <- E8, <- E7.
     eapply yields_cons; [exact Estep | exact Hy].
   - destruct Hs as [E1 [E2 E3]]. subst. exists used.
-    replace (dedup_seq used (ups up (rr_future fb))) with (@nil host).
-    + apply yields_nil. exact Estep.
-    + rewrite <- (app_nil_r (rr_future fb)). rewrite (dedup_seq_skipped up used _ [] E1). reflexivity.
+    rewrite (dedup_seq_all_skipped up used _ E1). apply yields_nil. exact Estep.
 Qed.
 
 (* creating the fallback generator in the call that first needs it = having created it just before *)
-Lemma lazy_pick nlrf up p rem used : (nlrf = true -> p2_stuck rem) ->
-  ta_step nlrf up (mkTA [] rem used None, p) =
-  ta_step nlrf up (mkTA [] rem used (Some (fst (rr_pick p))), snd (rr_pick p)).
+Lemma lazy_pick nlrf up p used :
+  ta_step nlrf up (mkTA [] [] used None, p) =
+  ta_step nlrf up (mkTA [] [] used (Some (fst (rr_pick p))), snd (rr_pick p)).
 Proof.
-  intros Hst. unfold ta_step, ta_next. cbn [fst snd ti_reps ti_remote ti_used ti_fb ta_phase1].
-  destruct nlrf; [rewrite (Hst eq_refl up)|]; destruct (rr_pick p) as [fb p']; reflexivity.
+  unfold ta_step, ta_next. cbn [fst snd ti_reps ti_remote ti_used ti_fb ta_phase1].
+  destruct nlrf; cbn [ta_phase2]; destruct (rr_pick p) as [fb p']; reflexivity.
 Qed.
 
 (* ---- the whole sequence ----------------------------------------------------------------------------- *)
 Definition far (k : pkind) (nlrf : bool) (up : Z -> bool) (rs : list host) : list host :=
-  if nlrf then ups up (p2_seq (add_remotes k true (repeat [] (max_tier k)) rs)) else [].
+  if nlrf then ups up (concat (add_remotes k true (repeat [] (max_tier k)) rs)) else [].
 
-(* the sequence the model's token-aware generator offers (faithful closed form) *)
+(* the sequence the model's token-aware generator offers *)
 Definition ta_seq (nlrf : bool) (up : Z -> bool) (p : policy) (rs : list host) : list host :=
-  let a := near (pk p) up rs in
-  let b := far (pk p) nlrf up rs in
-  a ++ b ++ dedup_seq (rev (map hid b) ++ rev (map hid a)) (spec_rr up (plists p) (Z.to_nat (pctr p + 2))).
+  dedup_seq [] (near (pk p) up rs ++ far (pk p) nlrf up rs ++ spec_rr up (plists p) (Z.to_nat (pctr p + 2))).
 
 Lemma add_remotes_false k remote rs : add_remotes k false remote rs = remote.
 Proof.
@@ -261,60 +261,41 @@ Proof.
 Qed.
 
 Lemma ta_sequence_lemma nlrf up p rs : ctr_in_range p ->
-  exists rem used,
-    yields (ta_step nlrf up) (ta_pick (pk p) nlrf (map Some rs), p) (ta_seq nlrf up p rs)
-           (ta_done rem used (pctr p + 1), mkPolicy (pk p) (plists p) (pctr p + 1))
-    /\ forall up', ta_step nlrf up' (ta_done rem used (pctr p + 1), mkPolicy (pk p) (plists p) (pctr p + 1))
-                   = (Nil, (ta_done rem used (pctr p + 1), mkPolicy (pk p) (plists p) (pctr p + 1))).
+  exists used,
+    let final := (ta_done used (pctr p + 1), mkPolicy (pk p) (plists p) (pctr p + 1)) in
+    yields (ta_step nlrf up) (ta_pick (pk p) nlrf rs, p) (ta_seq nlrf up p rs) final
+    /\ forall up', ta_step nlrf up' final = (Nil, final).
 Proof.
   intros Hr. destruct (rr_pick_spec p Hr) as [Hinv [Hs [_ [_ [Hf Hp]]]]].
   unfold ta_seq, ta_pick. set (a := near (pk p) up rs). set (b := far (pk p) nlrf up rs).
+  set (RR := spec_rr up (plists p) (Z.to_nat (pctr p + 2))).
   set (p' := mkPolicy (pk p) (plists p) (pctr p + 1)) in *.
-  (* third stage, from any stuck remainder *)
-  assert (S3 : forall rem used, (nlrf = true -> p2_stuck rem) ->
-            exists used', yields (ta_step nlrf up) (mkTA [] rem used None, p)
-                                 (dedup_seq used (spec_rr up (plists p) (Z.to_nat (pctr p + 2))))
-                                 (ta_done rem used' (pctr p + 1), p')).
-  { intros rem used Hst.
-    destruct (stage3 nlrf up p' rem Hst _ (fst (rr_pick p)) eq_refl Hinv used) as [u' Hy].
-    exists u'. eapply yields_head; [apply lazy_pick; assumption|]. rewrite Hp.
+  (* third stage *)
+  assert (S3 : forall used, exists used', yields (ta_step nlrf up) (mkTA [] [] used None, p)
+                                                 (dedup_seq used RR) (ta_done used' (pctr p + 1), p')).
+  { intros used. destruct (stage3 nlrf up p' _ (fst (rr_pick p)) eq_refl Hinv used) as [u' Hy].
+    exists u'. eapply yields_head; [apply lazy_pick|]. rewrite Hp. unfold RR.
     replace (pctr p + 2) with (pctr p + 1 + 1) by lia. rewrite <- rr_future_spec, <- Hf, <- Hs. exact Hy. }
-  destruct nlrf.
-  - (* with non-local fallback *)
-    assert (S2 : exists st', yields (ta_step true up)
-               (mkTA [] (add_remotes (pk p) true (repeat [] (max_tier (pk p))) rs) (rev (map hid a) ++ []) None, p)
-               (b ++ dedup_seq (rev (map hid b) ++ rev (map hid a)) (spec_rr up (plists p) (Z.to_nat (pctr p + 2)))) st'
-               /\ exists rem used, st' = (ta_done rem used (pctr p + 1), p') /\ p2_stuck rem).
-    { unfold b, far.
-      set (rem0 := add_remotes (pk p) true (repeat [] (max_tier (pk p))) rs).
-      (* the second loop, by induction on what it can still reach, ending in the third *)
-      assert (G : forall n rem, length (p2_seq rem) = n -> forall used,
-                exists rem_end used_end, p2_stuck rem_end /\
-                  yields (ta_step true up) (mkTA [] rem used None, p)
-                         (ups up (p2_seq rem) ++ dedup_seq (rev (map hid (ups up (p2_seq rem))) ++ used)
-                                                      (spec_rr up (plists p) (Z.to_nat (pctr p + 2))))
-                         (ta_done rem_end used_end (pctr p + 1), p')).
-      { induction n as [n IH] using lt_wf_ind. intros rem Hn used.
-        pose proof (phase2_spec up rem) as Hsp. destruct (ta_phase2 up rem) as [h rem'|rem'] eqn:E.
-        - destruct Hsp as [pre [post [E1 [E2 [E3 E4]]]]].
-          assert (Eu : ups up (p2_seq rem) = h :: ups up (p2_seq rem')) by (rewrite E1, E4; apply ups_split; assumption).
-          destruct (IH (length (p2_seq rem'))) with (rem := rem') (used := hid h :: used) as [re [ue [Hst Hy]]].
-          { rewrite <- Hn, E1, E4, app_length. simpl. lia. }
-          { reflexivity. }
-          exists re, ue. split; [assumption|]. rewrite Eu, rev_ids_cons. simpl. eapply yields_cons; [|exact Hy].
-          unfold ta_step, ta_next. cbn [fst snd ti_reps ti_remote ti_used ti_fb ta_phase1]. rewrite E. reflexivity.
-        - destruct Hsp as [E1 [E2 E3]]. rewrite (ups_downs _ _ E1). simpl.
-          destruct (S3 rem' used (fun _ => E3)) as [u' Hy]. exists rem', u'. split; [assumption|].
-          eapply yields_head; [|exact Hy].
-          unfold ta_step, ta_next. cbn [fst snd ti_reps ti_remote ti_used ti_fb ta_phase1]. rewrite E, (E3 up). reflexivity. }
-      destruct (G _ rem0 eq_refl (rev (map hid a) ++ [])) as [re [ue [Hst Hy]]].
-      exists (ta_done re ue (pctr p + 1), p'). rewrite app_nil_r in *. split; [exact Hy|]. exists re, ue. split; [reflexivity | assumption]. }
-    destruct S2 as [st' [Hy [rem [used [-> Hst]]]]]. exists rem, used. split.
-    + apply stage1. exact Hy.
-    + intros up'. apply ta_done_stays. assumption.
-  - (* without: remote is never touched and the second loop is skipped *)
-    destruct (S3 [] (rev (map hid a) ++ []) (fun H => False_ind _ (Bool.diff_false_true H))) as [u' Hy].
-    exists [], u'. split.
-    + apply stage1. rewrite add_remotes_false. unfold b, far. simpl. fold a. rewrite app_nil_r in *. exact Hy.
-    + intros up'. apply ta_done_stays. intros up''. reflexivity.
+  (* second stage, by induction on what it can still reach, ending in the third *)
+  assert (S2 : nlrf = true -> forall n rem, length (concat rem) = n -> forall used,
+            exists used_end, yields (ta_step nlrf up) (mkTA [] rem used None, p)
+                         (dedup_seq used (ups up (concat rem)) ++ dedup_seq (used_after used (ups up (concat rem))) RR)
+                         (ta_done used_end (pctr p + 1), p')).
+  { intros En. induction n as [n IH] using lt_wf_ind. intros rem Hn used.
+    pose proof (phase2_spec up used rem) as Hsp. destruct (ta_phase2 up used rem) as [h rem'|rem'] eqn:E.
+    - destruct Hsp as [pre [post [E1 [E2 [E3 [E4 E5]]]]]].
+      assert (Hlt : (length (concat rem') < n)%nat) by (rewrite <- Hn, E1, E5, app_length; simpl; lia).
+      destruct (IH (length (concat rem')) Hlt rem' eq_refl (hid h :: used)) as [ue Hy].
+      exists ue. unfold used_after in *. rewrite E1, (dedup_seq_split up used pre h post E2 E3 E4), <- E5.
+      rewrite rev_ids_cons. simpl. eapply yields_cons; [|exact Hy].
+      unfold ta_step, ta_next. cbn [fst snd ti_reps ti_remote ti_used ti_fb ta_phase1]. rewrite En, E. reflexivity.
+    - destruct Hsp as [E1 E2]. subst rem'. unfold used_after. rewrite (dedup_seq_all_skipped up used _ E1). simpl.
+      destruct (S3 used) as [u' Hy]. exists u'. eapply yields_head; [|exact Hy].
+      unfold ta_step, ta_next. cbn [fst snd ti_reps ti_remote ti_used ti_fb ta_phase1]. rewrite En, E. cbn [ta_phase2]. reflexivity. }
+  rewrite dedup_seq_app, dedup_seq_app.
+  destruct nlrf eqn:En.
+  - destruct (S2 eq_refl _ (add_remotes (pk p) true (repeat [] (max_tier (pk p))) rs) eq_refl (used_after [] a)) as [ue Hy].
+    exists ue. split; [|intros up'; apply ta_done_stays]. apply stage1. unfold b, far. exact Hy.
+  - destruct (S3 (used_after [] a)) as [u' Hy]. exists u'. split; [|intros up'; apply ta_done_stays].
+    apply stage1. rewrite add_remotes_false. unfold b, far. simpl. exact Hy.
 Qed.
